@@ -92,7 +92,7 @@ def build(ctx):
 def run(exe, args=()):
     env = dict(os.environ)
     env.update(cbuild.SAN_ENV)
-    return subprocess.run([exe] + [str(a) for a in args], capture_output=True, text=True, env=env)
+    return cbuild.run_bounded([exe] + [str(a) for a in args], env=env)
 
 
 def check(ctx, rec):
